@@ -320,7 +320,7 @@ func ruleC04R4(c *Ctx) {
 	n := 0
 	for _, fn := range c.FuncsIn(pkgIndex) {
 		// getter: loads Writer.root and returns *Snapshot deriving from it
-		if fn.Signature.Results().Len() == 0 || namedOf(fn.Signature.Results().At(0).Type()) != a.Snapshot {
+		if fn.Signature.Results().Len() != 1 || namedOf(fn.Signature.Results().At(0).Type()) != a.Snapshot {
 			continue
 		}
 		var rootLoads []ssa.Value
@@ -337,19 +337,17 @@ func ruleC04R4(c *Ctx) {
 		const (
 			fLocked uint64 = 1 << iota
 			fRef
+			fWriteLocked
+			fDeferredUnlock
 		)
 		var problems []string
 		ex := &Explorer{Fn: fn}
 		ex.OnInstr = func(in ssa.Instruction, st *PState) bool {
+			lockStep(in, a.WRootLock, st, fLocked, fWriteLocked, fDeferredUnlock)
 			cc := callOf(in)
 			if cc != nil {
-				if _, isDefer := in.(*ssa.Defer); !isDefer {
-					switch lockCallKind(cc, a.WRootLock) {
-					case "Lock", "RLock":
-						st.Flags |= fLocked
-					case "Unlock", "RUnlock":
-						st.Flags &^= fLocked
-					}
+				if _, isDefer := in.(*ssa.Defer); isDefer {
+					return true
 				}
 				if isAddRef(cc.StaticCallee()) {
 					if st.Flags&fLocked == 0 {
@@ -376,7 +374,7 @@ func ruleC04R4(c *Ctx) {
 			if st.Flags&fRef == 0 {
 				problems = append(problems, "a path returns the root snapshot without having taken a reference on it")
 			}
-			if st.Flags&fLocked != 0 {
+			if st.Flags&fLocked != 0 && st.Flags&fDeferredUnlock == 0 {
 				problems = append(problems, "a path returns with rootLock still held")
 			}
 		}
